@@ -19,7 +19,10 @@ SIDECARS = {
 
 
 def load_sidecar(modname):
-  return importlib.import_module(SIDECARS[modname])
+  m = importlib.import_module(SIDECARS[modname])
+  if hasattr(m, '_load_second_part'):
+    m._load_second_part()
+  return m
 
 
 class ProofResult:
